@@ -85,7 +85,11 @@ impl Region {
 }
 impl MetaG {
     pub uninterp spec fn v_start(&self) -> usize;
+    pub uninterp spec fn v_len(&self) -> usize;
+    pub uninterp spec fn v_reserved(&self) -> usize;
     #[verifier::external_body] pub fn start(&self) -> (r: usize) ensures r == self.v_start() { unimplemented!() }
+    #[verifier::external_body] pub fn len(&self) -> (r: usize) ensures r == self.v_len() { unimplemented!() }
+    #[verifier::external_body] pub fn reserved(&self) -> (r: usize) ensures r == self.v_reserved() { unimplemented!() }
     // RegionMetadata::flush: schedules writeback of this slot; Ok(true) iff something was scheduled
     #[verifier::external_body]
     pub fn flush(&self, index: usize, regions: &RegionsG, Tracked(w): Tracked<&mut World>) -> (r: Result<bool>)
